@@ -2,8 +2,8 @@
     sumbool map to OCaml natives; N, positive, nat, string, ascii stay the extracted inductives. *)
 From Coq Require Import ExtrOcamlBasic.
 From RS Require Import Base.Bytes Base.Outcome Interp.Run Pkt.Csum Spec.Wire Spec.PcapRead Spec.Reasm4 Spec.Tunnel
-  Spec.LenPrefix Spec.TlsParse Spec.DhcpParse Spec.DnsParse Spec.NbDecode.
-Extraction "rsmodel.ml" run run_src csum_partial csum_fold ipv4_ok tcp_ok udp_len_ok udp_csum_ok icmp_ok verifies pcap_read reassemble fragment_of vxlan_decode gre_decode erspan2_decode
+  Spec.TunnelPeel Spec.LenPrefix Spec.TlsParse Spec.DhcpParse Spec.DnsParse Spec.NbDecode.
+Extraction "rsmodel.ml" run run_src csum_partial csum_fold ipv4_ok tcp_ok udp_len_ok udp_csum_ok icmp_ok verifies pcap_read reassemble fragment_of vxlan_decode gre_decode erspan2_decode peel
   rd_be rd_le parse_len_prefixed parse_tls_record parse_handshake parse_extension parse_extensions parse_cipher_list
   parse_client_hello parse_server_hello parse_sni parse_certificates parse_dhcp_tlv parse_dhcp_options parse_dhcp_header
   parse_name expand_name decode_flags parse_dns_header parse_question parse_rr parse_dns_message nb_decode.
